@@ -292,7 +292,7 @@ fn gen_c06(p: &Pools, rng: &mut Rng, pb: &mut PB) {
                 pb.call("mul", *rng.pick(&["vv", "rv", "vr", "rr"]), &[r, ri]);
                 let pt = pb.load(Val::P2(Point2::from_vec(rv2(rng))));
                 pb.call("rotate_point", "m", &[r, pt]);
-                pb.call("mat_from_basis", "from", &[r]);
+                pb.call("mat_from_basis", if rng.chance(1, 2) { "from" } else { "asref" }, &[r]);
             } else {
                 pb.call("mul", "vv", &[r, v]);
             }
@@ -1134,6 +1134,11 @@ fn gen_c18(p: &Pools, rng: &mut Rng, pb: &mut PB) {
                 0 => { pb.call("abs_diff_eq", "raw", &a); }
                 1 => { a.push(pb.load(vs(q(1, 16)))); pb.call("relative_eq", "raw", &a); }
                 _ => { a.push(pb.load(Val::I(4))); pb.call("ulps_eq", "raw", &a); }
+            }
+            // Zero::is_zero of an angle: ulps-comparison of its number with 0 (zero, a residue below the tolerance, a proper angle)
+            if n == 1 {
+                let z = pb.load(vs(*rng.pick(&[q(0, 1), q(1, 1 << 30), q(-1, 1 << 30), q(1, 1024), q(-3, 1), c[0]])));
+                pb.call("is_zero_approx", "raw", &[a[0], z]);
             }
         }
         4 => {
